@@ -852,3 +852,306 @@ Proof.
       rewrite Hes. now apply (SimpOK_Q true).
     + rewrite flat_map_app, Hes. simpl flat_map. rewrite app_nil_r. now apply (SimpOK_Q false).
 Qed.
+
+(* ------------------------------------------------------------------------------------------------ *)
+(* statuses *)
+Definition Partial (v : nat) (t : pq) : Prop := ~ PureE v t /\ ~ PureF v t.
+
+Definition StOK (v : nat) (t : pq) (st : status) : Prop :=
+  match st with
+  | SFull => PureF v t
+  | SEmpty => PureE v t
+  | SPartA => Al false v t /\ Partial v t
+  | SPartU => CF v t /\ Partial v t
+  end.
+
+Lemma StOK_CF v t st : StOK v t st -> CF v t.
+Proof. destruct st; simpl; [apply CF_F|apply CF_E|intros [H _]; now apply (Al_CF false)|tauto]. Qed.
+
+Lemma status_eqb_eq a b : status_eqb a b = true <-> a = b.
+Proof. destruct a, b; simpl; split; congruence. Qed.
+
+Lemma Pure_both v t : proper t = true -> PureE v t -> PureF v t -> False.
+Proof.
+  intros Hp HE HF. destruct (ordering t) as [|s r] eqn:E; [now apply proper_leaves in Hp|].
+  unfold PureE, PureF in *. rewrite E in *. inversion HE; inversion HF; subst. auto.
+Qed.
+
+(* the status of a tree without v is EMPTY, of a tree full of v is FULL *)
+Lemma StOK_E v t st : proper t = true -> StOK v t st -> PureE v t -> st = SEmpty.
+Proof.
+  intros Hp Hs HE. destruct st; simpl in Hs; auto.
+  - destruct (Pure_both v t Hp HE Hs).
+  - destruct Hs as [_ [H _]]. contradiction.
+  - destruct Hs as [_ [H _]]. contradiction.
+Qed.
+
+Lemma StOK_F v t st : proper t = true -> StOK v t st -> PureF v t -> st = SFull.
+Proof.
+  intros Hp Hs HF. destruct st; simpl in Hs; auto.
+  - destruct (Pure_both v t Hp Hs HF).
+  - destruct Hs as [_ [_ H]]. contradiction.
+  - destruct Hs as [_ [_ H]]. contradiction.
+Qed.
+
+(* children sorted by status *)
+Lemma pick_st_cons s c cs st seq :
+  pick_st s (c :: cs) (st :: seq) = if status_eqb s st then c :: pick_st s cs seq else pick_st s cs seq.
+Proof. unfold pick_st. simpl. destruct (status_eqb s st); reflexivity. Qed.
+
+Lemma count_st_cons s st seq : count_st s (st :: seq) = if status_eqb s st then S (count_st s seq) else count_st s seq.
+Proof. unfold count_st. simpl. destruct (status_eqb s st); reflexivity. Qed.
+
+Lemma pick_st_Forall (R : pq -> status -> Prop) s cs seq :
+  Forall2 R cs seq -> Forall (fun c => R c s) (pick_st s cs seq).
+Proof.
+  induction 1 as [|c st cs seq Hc H IH]; [constructor|]. rewrite pick_st_cons.
+  destruct (status_eqb s st) eqn:E; [|exact IH]. apply status_eqb_eq in E. subst. now constructor.
+Qed.
+
+Lemma pick_st_incl s cs seq : incl (pick_st s cs seq) cs.
+Proof.
+  unfold pick_st. intros c Hc. apply in_map_iff in Hc. destruct Hc as ([c' st] & <- & Hc).
+  apply filter_In in Hc. destruct Hc as [Hc _]. now apply in_combine_l in Hc.
+Qed.
+
+Lemma pick_st_length (R : pq -> status -> Prop) s cs seq :
+  Forall2 R cs seq -> length (pick_st s cs seq) = count_st s seq.
+Proof.
+  induction 1 as [|c st cs seq Hc H IH]; [reflexivity|]. rewrite pick_st_cons, count_st_cons.
+  destruct (status_eqb s st); simpl; now rewrite IH.
+Qed.
+
+Lemma pick_st_perm (R : pq -> status -> Prop) cs seq :
+  Forall2 R cs seq ->
+  Permutation cs (pick_st SFull cs seq ++ pick_st SEmpty cs seq ++ pick_st SPartA cs seq ++ pick_st SPartU cs seq).
+Proof.
+  induction 1 as [|c st cs seq Hc H IH]; [constructor|]. rewrite !pick_st_cons.
+  destruct st; simpl.
+  - now constructor.
+  - apply Permutation_cons_app. exact IH.
+  - rewrite app_assoc. apply Permutation_cons_app. now rewrite <- app_assoc.
+  - rewrite !app_assoc. apply Permutation_cons_app. now rewrite <- !app_assoc.
+Qed.
+
+Lemma count_st_total seq :
+  count_st SFull seq + count_st SEmpty seq + count_st SPartA seq + count_st SPartU seq = length seq.
+Proof. induction seq as [|st seq IH]; [reflexivity|]. rewrite !count_st_cons. destruct st; simpl; lia. Qed.
+
+Lemma count_st_le s seq : count_st s seq <= length seq.
+Proof. induction seq as [|st seq IH]; [unfold count_st; simpl; lia|]. rewrite count_st_cons. destruct (status_eqb s st); simpl; lia. Qed.
+
+Lemma count_st_all (R : pq -> status -> Prop) s cs seq :
+  Forall2 R cs seq -> count_st s seq = length seq -> Forall (fun c => R c s) cs.
+Proof.
+  induction 1 as [|c st cs seq Hc H IH]; intros Hn; [constructor|]. rewrite count_st_cons in Hn. simpl in Hn.
+  assert (Hle : count_st s seq <= length seq) by apply count_st_le.
+  destruct (status_eqb s st) eqn:E; [|lia]. apply status_eqb_eq in E. subst. constructor; [exact Hc|]. apply IH. lia.
+Qed.
+
+(* all children but one are EMPTY *)
+Lemma one_non_empty (R : pq -> status -> Prop) s cs seq :
+  Forall2 R cs seq -> s <> SEmpty -> S (count_st SEmpty seq) = length seq -> count_st s seq = 1 ->
+  exists es c es2, cs = es ++ c :: es2 /\ Forall (fun e => R e SEmpty) (es ++ es2) /\ R c s /\
+                   pick_st SEmpty cs seq = es ++ es2 /\ pick_st s cs seq = [c].
+Proof.
+  intros H Hs. induction H as [|c st cs seq Hc H IH]; intros HnE Hn1; [discriminate|].
+  rewrite !count_st_cons in *. rewrite !pick_st_cons. cbn [length] in HnE.
+  assert (HleE : count_st SEmpty seq <= length seq) by apply count_st_le.
+  destruct (status_eqb SEmpty st) eqn:EE.
+  - apply status_eqb_eq in EE. subst st.
+    assert (Es : status_eqb s SEmpty = false) by (destruct s; simpl; congruence). rewrite Es in *.
+    destruct IH as (es & c0 & es2 & -> & HE & Hc0 & HpE & Hps); [lia|exact Hn1|].
+    exists (c :: es), c0, es2. simpl. repeat split; auto. now rewrite HpE.
+  - (* this child is the one *)
+    assert (HallE : count_st SEmpty seq = length seq) by lia.
+    pose proof (count_st_all R SEmpty cs seq H HallE) as HE.
+    pose proof (count_st_total seq) as Ht.
+    assert (H0 : count_st s seq = 0) by (destruct s; try congruence; lia).
+    destruct (status_eqb s st) eqn:Es; [|lia]. apply status_eqb_eq in Es. subst st.
+    exists [], c, cs. simpl. repeat split; auto.
+    + clear - H HallE. induction H as [|c st cs seq Hc H IH]; [reflexivity|].
+      rewrite count_st_cons in HallE. rewrite pick_st_cons. cbn [length] in HallE.
+      assert (Hle : count_st SEmpty seq <= length seq) by apply count_st_le.
+      destruct (status_eqb SEmpty st); [|lia]. f_equal. apply IH. lia.
+    + f_equal. clear - H H0. induction H as [|c st cs seq Hc H IH]; [reflexivity|].
+      rewrite count_st_cons in H0. rewrite pick_st_cons. destruct (status_eqb s st); [discriminate|]. now apply IH.
+Qed.
+
+(* ------------------------------------------------------------------------------------------------ *)
+(* sequences of pieces *)
+Definition PiecesL (L base : list pq) : Prop :=
+  (forall o, OrdL L o -> OrdL base o) /\ (forall o, OrdL (rev L) o -> OrdL (rev base) o).
+
+Lemma PiecesL_refl l : PiecesL l l.
+Proof. split; auto. Qed.
+
+Lemma PiecesL_app a a' b b' : PiecesL a a' -> PiecesL b b' -> PiecesL (a ++ b) (a' ++ b').
+Proof.
+  intros [Ha Har] [Hb Hbr]. split; intros o Ho.
+  - apply OrdL_app in Ho. destruct Ho as (o1 & o2 & -> & H1 & H2). apply OrdL_app.
+    exists o1, o2. repeat split; auto.
+  - rewrite rev_app_distr in *. apply OrdL_app in Ho. destruct Ho as (o1 & o2 & -> & H1 & H2). apply OrdL_app.
+    exists o1, o2. repeat split; auto.
+Qed.
+
+Lemma PiecesL_of_Pieces L c : Pieces L c -> PiecesL L [c].
+Proof. intros [Hf Hb]. split; intros o Ho; simpl; apply OrdL_one; auto. Qed.
+
+Lemma PiecesL_Ref c' c : Ref c' c -> PiecesL [c'] [c].
+Proof. intros H. split; intros o Ho; simpl in *; apply OrdL_one; apply OrdL_one in Ho; auto. Qed.
+
+Lemma PiecesL_trans a b c : PiecesL a b -> PiecesL b c -> PiecesL a c.
+Proof. intros [H1 H2] [H3 H4]. split; auto. Qed.
+
+(* a Q-node made of pieces refines the Q-node on the original sequence *)
+Lemma Ref_Q_pieces L base : L <> [] -> PiecesL L base -> Ref (new_node KQ L) (Node KQ base).
+Proof.
+  intros Hne [Hf Hb] o Ho. apply Ord_new_node in Ho; [|exact Hne]. apply Ord_Q in Ho. apply Ord_Q.
+  destruct Ho; [left|right]; auto.
+Qed.
+
+Lemma Ref_new_node k l : l <> [] -> Ref (new_node k l) (Node k l).
+Proof. intros H o Ho. now apply Ord_new_node in Ho. Qed.
+
+(* replacing the last child of a P-node *)
+Lemma Ref_P_last a c' c : Ref c' c -> Ref (Node KP (a ++ [c'])) (Node KP (a ++ [c])).
+Proof.
+  intros H. apply Ref_node. apply Forall2_app; [apply Forall2_Ref_refl|]. repeat constructor. exact H.
+Qed.
+
+(* E-children plus one composite child built from the sequence base: back to the flat P-node *)
+Lemma Ref_P_regroup a base : Ref (Node KP (a ++ [Node KQ base])) (Node KP (a ++ base)).
+Proof.
+  intros o Ho. apply Ord_P_group. revert o Ho. apply Ref_P_last. intros o Ho. now apply Ord_Q_P.
+Qed.
+
+Lemma AlmostProper_flat t :
+  match t with Leaf _ => True | Node _ l => l <> [] /\ Forall (fun c => proper c = true) l end ->
+  proper (flat_ret t) = true.
+Proof.
+  assert (Hid : forall t, proper t = true -> flat_ret t = t).
+  { intros t0. induction t0 as [s|k cs IH] using pq_ind'; [reflexivity|]. intros Hp.
+    apply proper_node_iff in Hp. destruct Hp as [Hlen Hp]. destruct cs as [|c [|c2 r]]; try (simpl in Hlen; lia).
+    change (Node k (map flat_ret (c :: c2 :: r)) = Node k (c :: c2 :: r)). f_equal.
+    rewrite <- (map_id (c :: c2 :: r)) at 2. apply map_ext_in. intros x Hx.
+    rewrite Forall_forall in IH, Hp. apply IH; auto. }
+  destruct t as [s|k l]; [reflexivity|]. intros [Hne Hp]. destruct l as [|c [|c2 r]]; [congruence| |].
+  - inversion Hp; subst. simpl. now rewrite Hid.
+  - change (proper (Node k (map flat_ret (c :: c2 :: r))) = true). apply proper_node_iff. split; [simpl; lia|].
+    apply Forall_map. eapply Forall_impl; [|exact Hp]. intros x Hx. cbv beta. now rewrite Hid.
+Qed.
+
+Definition AlmostProper (t : pq) : Prop :=
+  match t with Leaf _ => True | Node _ l => l <> [] /\ Forall (fun c => proper c = true) l end.
+
+Lemma proper_AlmostProper t : proper t = true -> AlmostProper t.
+Proof.
+  destruct t as [s|k l]; [constructor|]. intros H. apply proper_node_iff in H. destruct H as [Hlen Hp].
+  split; [|exact Hp]. destruct l; [simpl in Hlen; lia|discriminate].
+Qed.
+
+Lemma Partial_child v k cs c : In c cs -> Partial v c -> Partial v (Node k cs).
+Proof.
+  intros Hin [HE HF]. split; intros H.
+  - apply Pure_node_E in H. rewrite Forall_forall in H. auto.
+  - apply Pure_node_F in H. rewrite Forall_forall in H. auto.
+Qed.
+
+Lemma not_PureE_F_child v k cs c : In c cs -> proper c = true -> PureF v c -> ~ PureE v (Node k cs).
+Proof.
+  intros Hin Hp HF H. apply Pure_node_E in H. rewrite Forall_forall in H. exact (Pure_both v c Hp (H c Hin) HF).
+Qed.
+Lemma not_PureF_E_child v k cs c : In c cs -> proper c = true -> PureE v c -> ~ PureF v (Node k cs).
+Proof.
+  intros Hin Hp HE H. apply Pure_node_F in H. rewrite Forall_forall in H. exact (Pure_both v c Hp HE (H c Hin)).
+Qed.
+
+(* the result of a case analysis on the children cs with statuses seq *)
+Definition CasePost (v : nat) (k : kind) (cs : list pq) (hasE : Prop) (t' : pq) (st : status) : Prop :=
+  StOK v t' st /\ AlmostProper t' /\ (hasE -> proper t' = true) /\
+  Permutation (flat_map ordering cs) (ordering t') /\ Ref t' (Node k cs).
+
+Lemma StOK_pick_F v cs seq : Forall2 (StOK v) cs seq -> Forall (PureF v) (pick_st SFull cs seq).
+Proof. intros H. exact (pick_st_Forall (StOK v) SFull cs seq H). Qed.
+Lemma StOK_pick_E v cs seq : Forall2 (StOK v) cs seq -> Forall (PureE v) (pick_st SEmpty cs seq).
+Proof. intros H. exact (pick_st_Forall (StOK v) SEmpty cs seq H). Qed.
+Lemma StOK_pick_PA v cs seq : Forall2 (StOK v) cs seq -> Forall (fun c => Al false v c /\ Partial v c) (pick_st SPartA cs seq).
+Proof. intros H. exact (pick_st_Forall (StOK v) SPartA cs seq H). Qed.
+
+Lemma pick_proper s cs seq : Forall (fun c => proper c = true) cs -> Forall (fun c => proper c = true) (pick_st s cs seq).
+Proof. intros H. apply Forall_forall. intros c Hc. rewrite Forall_forall in H. apply H. now apply (pick_st_incl s cs seq). Qed.
+
+Lemma length_zero_nil {T} (l : list T) : length l = 0 -> l = [].
+Proof. destruct l; [reflexivity|discriminate]. Qed.
+
+Lemma flat_perm_3 (F E PA : list pq) cs :
+  Permutation cs (F ++ E ++ PA) -> Permutation (flat_map ordering cs) (flat_map ordering E ++ flat_map ordering PA ++ flat_map ordering F).
+Proof.
+  intros H. etransitivity; [apply flat_map_perm; exact H|]. rewrite !flat_map_app.
+  etransitivity; [apply Permutation_app_comm|]. now rewrite <- app_assoc.
+Qed.
+
+(* the "else" branch of P.set_contiguous with at most one aligned partial child: the pieces Lc of that child (none
+   if there is no such child), then the block of full children *)
+Lemma p_else_one v cs F E PAl Lc :
+  2 <= length cs -> Permutation cs (F ++ E ++ PAl) -> F <> [] ->
+  Forall (fun c => proper c = true) F -> Forall (fun c => proper c = true) E ->
+  Forall (PureF v) F -> Forall (PureE v) E ->
+  Pattern false v Lc -> Forall (fun c => proper c = true) Lc ->
+  Permutation (flat_map ordering PAl) (flat_map ordering Lc) -> PiecesL Lc PAl ->
+  (E = [] -> Lc <> [] /\ ~ Forall (PureF v) Lc) ->
+  CasePost v KP cs (E <> []) (Node KP (E ++ [new_node KQ (Lc ++ [new_node KP F])])) SPartA.
+Proof.
+  intros Hn HP HFne HpF HpE HF HE (es' & fs' & HE' & HF' & HLc) HpL HpermL Hpieces HnoE.
+  simpl in HLc. subst Lc.
+  set (XF := new_node KP F).
+  assert (HXFp : proper XF = true) by now apply proper_new_node.
+  assert (HXFF : PureF v XF) by now apply PureF_new_node.
+  set (new := (es' ++ fs') ++ [XF]).
+  assert (Hnew_ne : new <> []) by (unfold new; intros E0; apply app_eq_nil in E0; destruct E0; discriminate).
+  assert (Hnewp : Forall (fun c => proper c = true) new) by (apply Forall_app; auto).
+  set (NQ := new_node KQ new).
+  assert (HNQp : proper NQ = true) by now apply proper_new_node.
+  assert (HNQ_al : PureF v NQ \/ Al false v NQ).
+  { unfold NQ, new. destruct es' as [|e es'].
+    - left. apply PureF_new_node. apply Forall_app. auto.
+    - right. rewrite <- app_assoc. rewrite new_node_many by (simpl; rewrite !app_length; simpl; lia).
+      apply (Al_QF false v (e :: es') (fs' ++ [XF])); [exact HE'|apply Forall_app; auto]. }
+  assert (HNQ_notE : ~ PureE v NQ).
+  { unfold NQ. intros H. unfold PureE in H. rewrite ordering_new_node in H. unfold new in H.
+    rewrite flat_map_app in H. apply Forall_app in H. destruct H as [_ H]. simpl in H. rewrite app_nil_r in H.
+    exact (Pure_both v XF HXFp H HXFF). }
+  split; [|split; [|split; [|split]]].
+  - (* status *)
+    split.
+    + destruct HNQ_al as [H|H]; [apply (Al_PF false v E NQ [])|apply (Al_PX false v E NQ [])]; auto;
+        now rewrite app_nil_r.
+    + split; intros H.
+      * apply Pure_node_E in H. apply Forall_app in H. destruct H as [_ H]. inversion H; subst. contradiction.
+      * apply Pure_node_F in H. apply Forall_app in H. destruct H as [H1 H2].
+        destruct E as [|e E].
+        -- destruct (HnoE eq_refl) as [_ Hn']. apply Hn'. inversion H2 as [|? ? H3 _]; subst.
+           unfold PureF, NQ in H3. rewrite ordering_new_node in H3. unfold new in H3.
+           rewrite flat_map_app in H3. apply Forall_app in H3. destruct H3 as [H3 _].
+           apply Forall_forall. intros c Hc. unfold PureF. apply Forall_forall. intros s Hs.
+           rewrite Forall_forall in H3. apply H3. apply in_flat_map. eauto.
+        -- inversion H1; subst. inversion HE; subst. inversion HpE; subst. eapply Pure_both; eauto.
+  - split; [intros E0; apply app_eq_nil in E0; destruct E0; discriminate|]. apply Forall_app. auto.
+  - intros HEne. apply proper_node_iff. split; [|apply Forall_app; auto].
+    rewrite app_length. simpl. destruct E; [congruence|simpl; lia].
+  - (* leaves *)
+    change (ordering (Node KP (E ++ [NQ]))) with (flat_map ordering (E ++ [NQ])).
+    rewrite flat_map_app. simpl. rewrite app_nil_r. unfold NQ. rewrite ordering_new_node. unfold new.
+    rewrite flat_map_app. simpl. rewrite app_nil_r. unfold XF. rewrite ordering_new_node.
+    etransitivity; [apply (flat_perm_3 F E PAl); exact HP|].
+    apply Permutation_app_head. apply Permutation_app_tail. exact HpermL.
+  - (* refinement *)
+    intros o Ho.
+    apply (Ord_P_perm (E ++ PAl ++ F)).
+    { apply Permutation_sym. etransitivity; [exact HP|]. etransitivity; [apply Permutation_app_comm|].
+      now rewrite <- app_assoc. }
+    rewrite app_assoc. apply Ord_P_group. rewrite <- app_assoc. apply Ref_P_regroup.
+    revert o Ho. apply Ref_P_last. unfold NQ. apply Ref_Q_pieces; [exact Hnew_ne|].
+    unfold new. apply PiecesL_app; [exact Hpieces|]. apply PiecesL_Ref. now apply Ref_new_node.
+Qed.
